@@ -41,6 +41,13 @@ def m_is_inside_any(dirs, f):
     return False
 
 
+def m_is_inside_or_parent_of_any(dirs, f):
+    for d in dirs:
+        if m_is_inside(d, f) or m_is_inside(f, d):
+            return True
+    return False
+
+
 def _validate():
     import itertools
     from breezy import osutils
@@ -49,6 +56,8 @@ def _validate():
         for f in strs:
             if bool(osutils.is_inside_any([d], f)) != bool(m_is_inside_any([d], f)):
                 raise RuntimeError("is_inside_any model differs on %r, %r" % (d, f))
+            if bool(osutils.is_inside_or_parent_of_any([d], f)) != bool(m_is_inside_or_parent_of_any([d], f)):
+                raise RuntimeError("is_inside_or_parent_of_any model differs on %r, %r" % (d, f))
 
 
 class _Osutils:
@@ -56,6 +65,8 @@ class _Osutils:
         self._real = real
 
     is_inside_any = staticmethod(m_is_inside_any)
+    is_inside_or_parent_of_any = staticmethod(m_is_inside_or_parent_of_any)
+    is_inside = staticmethod(m_is_inside)
 
     def __getattr__(self, name):
         return getattr(self._real, name)
